@@ -941,9 +941,9 @@ func (r *c10Run) run(e *c10Entry, in []byte, mut string) c10Result {
 	}
 	r.seen[h] = true
 	r.watch.start(e.Name, in)
-	t0 := time.Now()
+	t0, cpu0 := time.Now(), c10CPUms()
 	res := c10RunCase(e, in, nil, nil)
-	el := time.Since(t0)
+	el, elCPU := time.Since(t0), c10CPUms()-cpu0
 	r.watch.done()
 	s := r.st(e)
 	s.Muts[mut]++
@@ -979,8 +979,10 @@ func (r *c10Run) run(e *c10Entry, in []byte, mut string) c10Result {
 			Check: "oracle", Op: e.Name, Input: map[string]any{"entry": e.Name, "input": c10InputRepr(in), "mutation": mut},
 			Expected: "a value or an error", Actual: map[string]any{"stage": res.Stage, "panic": res.Panic, "site": res.Site}})
 	}
-	if el > 20*time.Second {
-		c.Report(vh.Finding{Class: "slow:" + e.Family + ":in-process", What: fmt.Sprintf("%s: %d-byte input took %v in process", e.Name, len(in), el),
+	// wall time alone is meaningless on a loaded machine (a descheduled process is not a slow decoder): the process must
+	// also have burnt at least half of that in CPU time while the case ran
+	if el > 20*time.Second && elCPU > 10000 {
+		c.Report(vh.Finding{Class: "slow:" + e.Family + ":in-process", What: fmt.Sprintf("%s: %d-byte input took %v (%d ms of CPU) in process", e.Name, len(in), el, elCPU),
 			Check: "oracle", Op: e.Name, Input: map[string]any{"entry": e.Name, "input": c10InputRepr(in), "mutation": mut}})
 	}
 	return res
@@ -1143,8 +1145,17 @@ func runC10(c *vh.Ctx) {
 		c.Res.Distribution["entry:"+n+":panicked"] = s.Panicked
 		totalAcc += s.Accepted
 		totalRej += s.Rejected
-		c.Res.Notes = append(c.Res.Notes, fmt.Sprintf("%s: accepted=%d rejected=%d panicked=%d valid-sources=%d/%d", n, s.Accepted, s.Rejected, s.Panicked, s.ValidAccepted, s.Valid))
-		if s.Valid > 0 && s.ValidAccepted*10 < s.Valid*3 {
+		note := fmt.Sprintf("%s: accepted=%d rejected=%d panicked=%d valid-sources=%d/%d", n, s.Accepted, s.Rejected, s.Panicked, s.ValidAccepted, s.Valid)
+		if s.ValidAccepted < s.Valid {
+			note += " (first rejection: " + trunc(s.FirstValidReject, 260) + ")"
+		}
+		c.Res.Notes = append(c.Res.Notes, note)
+		// the share of accepted "valid" sources is a statistic: the generators deliberately mix in sources no decoder accepts
+		// (the zero entity `::""`, calls of unknown functions; ~13% of the policies, ~20% of the multi-policy documents), so
+		// with the 1-6 sources some entries get in the quick tier "fewer than 30% accepted" happens by chance (about 1 run in
+		// 100).  Below 10 sources the ratio is not tested, only "none of >= 4 sources accepted" (chance: below 1 in 1000 for
+		// such an entry); a collapsed stream also shows below (nothing accepted at all).
+		if (s.Valid >= 10 && s.ValidAccepted*10 < s.Valid*3) || (s.Valid >= 4 && s.ValidAccepted == 0) {
 			c.Report(vh.Finding{Class: "generator-collapse", What: fmt.Sprintf("%s accepts only %d of its %d valid source documents (first rejection: %s)", n, s.ValidAccepted, s.Valid, s.FirstValidReject), Check: "self-test", NoInput: true})
 		}
 		if s.Accepted+s.Rejected+s.Panicked > 200 && (s.Accepted == 0 || s.Rejected == 0) {
